@@ -144,21 +144,25 @@ def check(ctx, R):
                             "empty-path guard holds before `%s`" % _what(n),
                             "`%s` can run with an empty device_path (no dominating `if not device_path: raise`)" % _what(n), f.loc(n.ast))
             # the guards raise the documented exceptions
+            from .c11 import raised_classes
             for n in g.nodes:
                 if n.kind == "test":
-                    t = n.ast.test
+                    t = unawait(n.ast.test)
+                    falsy = "false"
                     if isinstance(t, ast.UnaryOp) and isinstance(t.op, ast.Not):
-                        k = varkey(unawait(t.operand))
-                        exc_want = None
-                        if k in (selfn + "." + flag, selfn + ".available"):
-                            exc_want = "AdbConnectionError"
-                        elif k == "device_path":
-                            exc_want = "DevicePathInvalidError"
-                        if exc_want:
-                            tgt = [d for d, l in g.succ[n] if l == "true"]
-                            good = len(tgt) == 1 and tgt[0].kind == "stmt" and isinstance(tgt[0].ast, ast.Raise) and exc_want in src(tgt[0].ast.exc or ast.Constant(None))
-                            R.check(good, "GUARD-exc", "%s|%s" % (f.qualname, exc_want), "guard raises %s" % exc_want,
-                                    "guard `%s` does not raise %s" % (src(t), exc_want), f.loc(n.ast))
+                        t, falsy = unawait(t.operand), "true"
+                    k = varkey(t)
+                    exc_want = None
+                    if k in (selfn + "." + flag, selfn + ".available"):
+                        exc_want = "AdbConnectionError"
+                    elif k == "device_path":
+                        exc_want = "DevicePathInvalidError"
+                    if exc_want:
+                        arm = g.reach_from_edge(n, falsy, exc=False)
+                        raises = [x for x in arm if x.kind == "stmt" and isinstance(x.ast, ast.Raise)]
+                        good = bool(raises) and g.exit not in arm and not any(x.kind == "test" for x in arm) and all(raised_classes(ctx, f, x, x.ast.exc) == {exc_want} for x in raises)
+                        R.check(good, "GUARD-exc", "%s|%s" % (f.qualname, exc_want), "guard raises %s" % exc_want,
+                                "guard `%s` does not raise %s" % (src(n.ast.test), exc_want), f.loc(n.ast))
     # "available is True exactly from a successful connect()": success is reported only for a CNXN answer (same instances as C05)
     from .c05 import _manager_connect
     from ..engine import terms
